@@ -6,8 +6,9 @@ CONSTANTS
   Atoms <- AtomsListS
   Prefix <- PfxNone
   MaxLen = 7
+  MaxAtoms = 99
   Cfgs <- CfgsCont
   Junk = 34
   EmitOn = TRUE
-INVARIANTS ResumeEqFresh Stable OffsSane Emit
+INVARIANTS ResumeEqFresh Stable OffsSane Emit EmitTwo EmitByte
 CHECK_DEADLOCK FALSE
